@@ -566,4 +566,6 @@ def run(src, out):
     extragen.run(src, out, hdr)
     import extragen2
     extragen2.run(src, out, hdr)
+    import extragen3
+    extragen3.run(src, out, hdr)
     return hdr
